@@ -307,6 +307,41 @@ def rearranged_modules_purity(res, c):
         res.violation(f"C05:two-saves-differ:{first_diff_chunk(Y, Y2)}", f"saving the same object (module list re-ordered: {how}) twice gives different bytes", dict(c.describe(), rearranged=how))
 
 
+def hidden_state_purity(res):
+    """State that a save does NOT write is still state of the object: labels on MetaModule controllers beyond the exposed count,
+    SpectraVoice tables edited directly, values of controllers that are not exposed.  Saving leaves all of it alone."""
+    import rv.api as api
+    mm = api.m.MetaModule()
+    mm.user_defined_controllers = 4
+    for i in range(8):
+        mm.user_defined[i].label = f"L{i}"
+    mm.user_defined_controllers = 2          # labels 2..7 are hidden now
+    sv = api.m.SpectraVoice()
+    sv.harmonic_volumes.values[3] = 99
+    sv.harmonic_freqs.values[5] = 4321
+    p = api.Project()
+    p.attach_module(mm)
+    p.attach_module(sv)
+
+    def look():
+        return ([c.label for c in mm.user_defined[:10]], [mm.controller_values.get(f"user_defined_{i + 1}") for i in range(10)],
+                list(sv.harmonic_volumes.values), list(sv.harmonic_freqs.values), list(sv.harmonic_widths.values))
+    monitors.PURITY_ENABLED = False
+    try:
+        for how, save in (("project", p.read), ("synth-metamodule", lambda: api.Synth(mm).read()), ("synth-spectravoice", lambda: api.Synth(sv).read()), ("clone", lambda: (mm.clone(), sv.clone()))):
+            before = look()
+            save()
+            res.count("purity_evaluations")
+            res.count("hidden_state_saves")
+            if look() != before:
+                k = next(i for i, (x, y) in enumerate(zip(before, look())) if x != y)
+                res.violation(f"C05:impure-save:hidden-state:{('labels', 'hidden-values', 'harmonic_volumes', 'harmonic_freqs', 'harmonic_widths')[k]}",
+                              f"saving ({how}) changed state it does not write: {before[k][:8]} -> {look()[k][:8]}", {"family": "hidden-state", "how": how})
+                break
+    finally:
+        monitors.PURITY_ENABLED = True
+
+
 def count_out_of_range(o):
     from rv.project import Project
     from rv.controller import Range
@@ -502,6 +537,7 @@ def run_shard(spec_, res):
         from ._repo_suite import ambient_under_repo_tests
         ambient_under_repo_tests(res, PROPERTY, ["save_is_pure"])
     export_orders(res, spec_["seed"], spec_["shard"], tier)
+    hidden_state_purity(res)
     threaded_saves(res, spec_["seed"], spec_["shard"], tier)
 
 
